@@ -264,12 +264,13 @@ def configs(tier):
     out = []
     if tier == 'quick':
         plan = [((1, 2), 2, ('a', 'b'), (0, 10, 11), (0, 10), 1, 3),
-                ((1, 2), 3, ('a', 'b'), (0, 10, 11), (0, 10), 1, 2)]
+                ((1, 2), 3, ('a', 'b'), (0, 11), (0,), 1, 2)]
     else:
         plan = [((1, 2), 2, ('a', 'b'), (0, 1, 10, 11, 12), (0, 1, 10, 11), 2, 3),
-                ((1, 2), 3, ('a', 'b', 'c'), (0, 1, 10, 11), (0, 1, 10, 11), 1, 3),
-                ((1, 2), 3, ('a', 'b'), (0, 10, 11), (0, 10), 2, 2),
-                ((1, 2), 4, ('a', 'b'), (0, 10, 11), (0, 10), 1, 2)]
+                ((1, 2), 3, ('a', 'b'), (0, 10, 11), (0, 10), 1, 3),
+                ((1, 2), 3, ('a', 'b', 'c'), (0, 11), (), 0, 2),
+                ((1, 2), 3, ('a', 'b'), (0, 11), (0,), 2, 2),
+                ((1, 2), 4, ('a', 'b'), (0, 11), (), 0, 2)]
     seen = set()
     for slotss, m, keys, arrivals, ctimes, maxv, n_opts in plan:
         types = sorted(((k, a, c) for k in keys for a in arrivals for c in (None,) + tuple(ctimes)),
@@ -349,11 +350,14 @@ def check(tier, seed, procs):
         'executions_by_feature': dict(sorted(cnt.items())),
         'deviation_bound': 'unbounded (every order of runnable callbacks and every load behaviour, state-hash pruned)',
         'bounds': (f'lifetime {LIFETIME}s; num_slots 1-2; '
-                   + ('2-3 lookups over keys a,b arriving at 0/10/11 s; <=1 lookup cancelled (controller at 0 or 10 s)' if tier == 'quick' else
-                      '2 lookups (keys a,b; arrivals 0/1/10/11/12; <=2 cancelled at 0/1/10/11), 3 lookups (keys a,b,c; arrivals 0/1/10/11; '
-                      '<=1 cancelled at 0/1/10/11 | keys a,b; arrivals 0/10/11; <=2 cancelled at 0/10), 4 lookups (keys a,b; arrivals 0/10/11; '
-                      '<=1 cancelled at 0/10)')
-                   + '; every load: returns after a yield | returns after 1 s | raises'),
+                   + ('2 lookups (keys a,b; arrivals 0/10/11 s; <=1 cancelled, controller at 0 or 10 s; loads return after a yield | raise | '
+                      'return after 1 s), 3 lookups (keys a,b; arrivals 0/11; <=1 cancelled at 0; loads return after a yield | raise)'
+                      if tier == 'quick' else
+                      '2 lookups (keys a,b; arrivals 0/1/10/11/12; <=2 cancelled at 0/1/10/11; 3 load behaviours), 3 lookups (keys a,b; '
+                      'arrivals 0/10/11; <=1 cancelled at 0/10; 3 load behaviours | keys a,b,c; arrivals 0/11; none cancelled; 2 load '
+                      'behaviours | keys a,b; arrivals 0/11; <=2 cancelled at 0; 2 load behaviours), 4 lookups (keys a,b; arrivals 0/11; '
+                      'none cancelled; 2 load behaviours)')
+                   + '; load behaviours: returns after a yield | raises after a yield | returns after 1 s'),
     }
     need = ['cancel:' + K_BEFORE, 'cancel:loader:while-waiting', 'cancel:sharer:while-waiting',
             'cancel:loader:after-load-done-before-resume', 'cancel:sharer:after-load-done-before-resume',
